@@ -20,6 +20,31 @@ CLAIMED = {
         'note': TB + ' Assumes: bad_alloc from ordinary allocation and the embedded-network integrity error are out of scope (named exemptions).',
         'technique': 'custom static analysis: null typestate dataflow + exception-flow + must-pass-through/who-may-call over clang AST/CFG/call graph',
     },
+    'C12': {
+        'text': 'Clause-limited static decision (level "other"): (1) the on-demand generator object and the reserved-region flag of the '
+                'transposition table form an inductive class invariant - no method can return with a constructed-but-not-generated '
+                'generator installed (the "aborted generation stays in use" failure the property names) or with a complete table whose '
+                'bytes ordinary stores may overwrite; (2) TBGenerator::generate can only return true after a full pass that modified '
+                'nothing and after the whole-range draw sweep, and every time/stop test leads to return false; (3) exhaustive constant '
+                'evaluation over the 8-bit state domain shows the three answer predicates disjoint and false on every unfinished state, '
+                'and get(set(n)) == n; (4) region size/alignment/placement constants agree with the men guard. Right level: the abort '
+                'clause is a typestate property of one class, decidable for every abort point at once; distances themselves are value-level.',
+        'design_ref': 'DESIGN.md section 2, C12',
+        'note': TB + ' Does not decide the exactness of distance-to-mate values.',
+        'technique': 'custom static analysis: typestate dataflow with sibling-method summaries, must-pass-through on the CFG, exhaustive constant evaluation over an 8-bit domain, constant agreement',
+    },
+    'C14': {
+        'text': 'Clause-limited static decision (level "other"): reset/frame completeness. (1) every TranspositionTable field that any '
+                'operation may write is definitely re-written by clear() on every path with the value a fresh table has, or has a checked '
+                'per-search initialiser chain; the slot array is zeroed on every path; (2) the Clear Hash listener must-calls '
+                'TranspositionTable::clear, History::init and setClearHistory; History::init / KillerTable::clear cover every member of '
+                'every cell (loop bounds = array extents); iterativeDeepening clears killers before searching; helpers honour '
+                'clearHistory. Right level: "whatever preceded it" quantifies over histories, and a missing reset is visible in the '
+                'write sets for all histories at once (this rule found the generation-counter defect that needs 15+16k searches to show).',
+        'design_ref': 'DESIGN.md section 2, C14',
+        'note': TB + ' Does not decide equality of node counts as such, nor state outside these classes (static-storage writers are listed for review).',
+        'technique': 'custom static analysis: effect (write-set) analysis with must-write on all CFG paths, reset-value agreement, must-call chains',
+    },
 }
 
 _PENDING = 'rules for this property are not implemented yet in this revision of /verif (planned clauses: DESIGN.md section 2); not claimed until they are'
